@@ -57,6 +57,36 @@ impl Prop for C19 {
       let f = id.split(';').next().unwrap_or("").to_string();
       out.push(Case { id: format!("stdlib;{}", id), cell: format!("stratum=stdlib;{}", f), input: json!({"src": src, "mutates": f.contains("assign")}) });
     }
+    // every index form of C03 (1-D and 2-D: scalars, index vectors, ranges, ':', logical masks) read in an assignment-free
+    // program, the subscripts written inline or held in variables: access kernels keep their output between evaluations
+    {
+      use crate::props::c03::{gen_sel, index_text, index_matrix, FORMS1, FORMS2, Sel};
+      let kinds: Vec<&str> = if tier == Tier::Quick { vec![["f64", "u8", "bool", "string", "i64", "u64"][(seed % 6) as usize], "f64"] } else { vec!["f64", "u8", "bool", "string", "i64", "u64", "f32", "r64"] };
+      for k in kinds {
+        for (r, c) in [(3usize, 2usize), (2, 3), (4, 4), (1, 5), (5, 1)] {
+          let mut formsets: Vec<Vec<&str>> = FORMS1.iter().map(|f| vec![*f]).collect();
+          for a in FORMS2.iter() { for b in FORMS2.iter() { formsets.push(vec![*a, *b]); } }
+          for forms in formsets {
+            let fname = forms.join(",");
+            let mut rng = Rng::keyed(seed, &format!("c19ix;{};{}x{};{}", k, r, c, fname));
+            let x = index_matrix(k, r, c, rng.below(5) as i64);
+            let Some(xl) = lit(&x) else { continue };
+            let extents: Vec<usize> = if forms.len() == 1 { vec![r * c] } else { vec![r, c] };
+            let mut sels: Vec<Sel> = forms.iter().zip(extents.iter()).map(|(f, e)| gen_sel(f, *e, &mut rng)).collect();
+            // masks whose true entries are not the leading positions
+            for (sel, e) in sels.iter_mut().zip(extents.iter()) { if let Sel::M(m) = sel { if *e >= 2 && m.iter().any(|b| *b) { m[0] = false; let l = m.len(); m[l - 1] = true; } } }
+            for via in ["inline", "vars"] {
+              let src = if via == "inline" { format!("x := {}\ny := x{}", xl, index_text(&sels, "f64")) } else {
+                let mut defs = String::new(); let mut parts = Vec::new();
+                for (i, sl) in sels.iter().enumerate() { let t = sl.text("f64"); if t == ":" { parts.push(t); } else { defs.push_str(&format!("ix{} := {}\n", i, t)); parts.push(format!("ix{}", i)); } }
+                format!("x := {}\n{}y := x[{}]", xl, defs, parts.join(","))
+              };
+              out.push(Case { id: format!("index;kind={};shape={}x{};form={};via={}", k, r, c, fname, via), cell: format!("stratum=index;form={};via={}", fname, via), input: json!({"src": src, "mutates": false}) });
+            }
+          }
+        }
+      }
+    }
     let n = if tier == Tier::Quick { 400 } else { 8000 };
     for i in 0..n {
       let mut rng = Rng::keyed(seed, &format!("c19comp{}", i));
